@@ -7,7 +7,7 @@ import json, os, shutil, subprocess, sys, time
 ID, var = sys.argv[1], sys.argv[2]
 checks = sys.argv[3:] or [ID]
 PREFIX = os.environ.get("SEED_PREFIX", "seed")
-NAME = {"seed": {"a": "a", "b": "b"}, "seed2": {"a": "c", "b": "d"}, "seed3": {"a": "e", "b": "f"}, "seed4": {"a": "g", "b": "h"}, "seed5": {"a": "i", "b": "j"}, "seed6": {"a": "k", "b": "l"}, "seed7": {"a": "m", "b": "n"}, "seed8": {"a": "o", "b": "p"}, "seed9": {"a": "q", "b": "r"}, "seed10": {"a": "s", "b": "t"}}[PREFIX][var]
+NAME = {"seed": {"a": "a", "b": "b"}, "seed2": {"a": "c", "b": "d"}, "seed3": {"a": "e", "b": "f"}, "seed4": {"a": "g", "b": "h"}, "seed5": {"a": "i", "b": "j"}, "seed6": {"a": "k", "b": "l"}, "seed7": {"a": "m", "b": "n"}, "seed8": {"a": "o", "b": "p"}, "seed9": {"a": "q", "b": "r"}, "seed10": {"a": "s", "b": "t"}, "seed11": {"a": "u", "b": "v"}}[PREFIX][var]
 wt = f"/tmp/{PREFIX}-{ID}"
 out = f"/tmp/{PREFIX}-{ID}-out/{var}"
 patch = f"{out}/patch.diff"
